@@ -5,6 +5,7 @@ mod engines;
 mod sqlgen;
 mod sched;
 mod sqlgen_sub;
+mod sqlgen_cons;
 use common::*;
 
 fn main() {
